@@ -65,4 +65,53 @@ mod harnesses {
 			}
 		}
 	}
+
+	/// Rule D6, variant without `.enumerate()` (bounded in the slice length only): the byte found is the first non-whitespace
+	/// byte among the first n bytes.
+	#[kani::proof]
+	#[kani::unwind(12)]
+	fn d6_take_find_chain() {
+		const LEN: usize = 10;
+		let data: [u8; LEN] = kani::any();
+		let len: usize = kani::any();
+		kani::assume(len <= LEN);
+		let n: usize = kani::any();
+		kani::assume(n <= LEN + 1);
+		let s = &data[..len];
+		let got = s.iter().take(n).find(|b| !b.is_ascii_whitespace());
+		let is_ws = |b: u8| b == b' ' || b == b'\t' || b == b'\n' || b == 0x0c || b == b'\r';
+		let mut j = 0;
+		let mut first: Option<u8> = None;
+		while j < len && j < n {
+			if !is_ws(s[j]) {
+				first = Some(s[j]);
+				break;
+			}
+			j += 1;
+		}
+		assert!(got.copied() == first);
+	}
+
+	/// Rule D6, find-only variant (client reader): `s.iter().find(..)` is None exactly when every byte is whitespace.
+	#[kani::proof]
+	#[kani::unwind(12)]
+	fn d6_find_chain() {
+		const LEN: usize = 10;
+		let data: [u8; LEN] = kani::any();
+		let len: usize = kani::any();
+		kani::assume(len <= LEN);
+		let s = &data[..len];
+		let got = s.iter().find(|b| !b.is_ascii_whitespace());
+		let is_ws = |b: u8| b == b' ' || b == b'\t' || b == b'\n' || b == 0x0c || b == b'\r';
+		let mut j = 0;
+		let mut first: Option<u8> = None;
+		while j < len {
+			if !is_ws(s[j]) {
+				first = Some(s[j]);
+				break;
+			}
+			j += 1;
+		}
+		assert!(got.copied() == first);
+	}
 }
